@@ -635,6 +635,13 @@ func runC20(p *core.Prog, r *core.Report, tier string) {
 				}
 				var bounded func(v ssa.Value, depth int) bool
 				bounded = func(v ssa.Value, depth int) bool {
+					// a captured context variable that was re-assigned (ctx, cancel := WithTimeout(ctx, …)): what it
+					// holds where the goroutine is started
+					if cell, ok := v.(*ssa.Alloc); ok && cell.Parent() == g.Parent() {
+						if rv := core.ReachingStore(cell, g); rv != nil {
+							v = rv
+						}
+					}
 					d := ds.D(v)
 					if d.MentionsCall("context.WithTimeout", "context.WithDeadline") {
 						return true
